@@ -5,8 +5,8 @@
   from local degree tests.
 * big networks: >= 10 species and >= 10 reactions, names / ids with multi-digit suffixes (string order != numeric order).
 * histories: ONE analyzer object, the underlying CRNHyperGraph is edited between the calls (reaction removed / added);
-  case["edits"] = [["del", id] | ["add", [id, rule, lhs, rhs]] | ["rmsp", species], ...], case["style"] = 0 (compute_crn_deficiency) or
-  1 (compute_summary + compute_linkage_deficiencies + run_deficiency_one_algorithm).  Step 0 = the initial network.
+  case["edits"] = [["del", id] | ["add", [id, rule, lhs, rhs]] | ["rmsp", species], ...], case["style"] = 0 (compute_crn_deficiency),
+  1 (compute_summary + compute_linkage_deficiencies + run_deficiency_one_algorithm) or 2 (compute_summary + run_deficiency_one_algorithm).  Step 0 = the initial network.
 """
 from . import c17_nets as G
 
@@ -185,7 +185,7 @@ def histories(rng, nrand=50):
     P = G._parse
     def net(lines):
         return G.net_from_strings(lines, "history")["rxns"]
-    for style in (0, 1):
+    for style in (0, 1, 2):
         # A -> 2A -> 3A, knock out 2A -> 3A: one class before and after, class deficiency 1 -> 0
         out.append(_hist(net(["A >> 2 A", "2 A >> 3 A"]), [["del", "r_2"]], style, "history/A-2A-3A/knockout"))
         out.append(_hist(net(["A >> 2 A", "2 A >> 3 A"]), [["del", "r_2"], ["add", ["n_1", "r", P("2 A"), P("3 A")]]], style,
@@ -229,7 +229,7 @@ def histories(rng, nrand=50):
                 eid = "n_%d" % (j + 1)
                 alive.append(eid)
                 edits.append(["add", [eid, rng.choice(G.RULES), G._side(l), G._side(r)]])
-        out.append(_hist(rxns, edits, rng.choice([0, 1])))
+        out.append(_hist(rxns, edits, rng.choice([0, 1, 2])))
     return out
 
 
@@ -294,7 +294,7 @@ def same_shape_histories(rng, nrand=40, kind="history-same-shape"):
 
     def net(lines):
         return G.net_from_strings(lines, kind)["rxns"]
-    for style in (0, 1):
+    for style in (0, 1, 2):
         # cycle A>B>C>A, r_3 replaced by A>C: not weakly reversible any more
         out.append(_hist(net(["A >> B", "B >> C", "C >> A"]), [["repl", ["r_3", "r", P("A"), P("C")]], ["coef", "r_1", "l", "A", 2]],
                          style, "same-shape/cycle-r3-reversed", kind))
@@ -344,7 +344,7 @@ def same_shape_histories(rng, nrand=40, kind="history-same-shape"):
                 present = sorted(_occ(cur))
                 edits.append(["rmsp0", rng.choice(present)])
         if edits:
-            out.append(_hist(rxns, edits, rng.choice([0, 1]), None, kind, view=view))
+            out.append(_hist(rxns, edits, rng.choice([0, 1, 2]), None, kind, view=view))
     return out
 
 
@@ -408,4 +408,14 @@ def large(rng, sizes=(40, 100), kind="large"):
         sides += [([[sp[i + 1], 1]], [[sp[i], 1]]) for i in range(0, n - 1, 7)]
         rxns = [["r_%d" % (k + 1), "r", l, r] for k, (l, r) in enumerate(sides)]
         out.append(dict(kind=kind, name="large/chain-%d" % n, rxns=rxns, iso=[], view="hyper", delta=0, wr=False))
+    # >= 10 linkage classes (two-digit class / complex numbers): 12 disjoint arcs, 11 disjoint reversible pairs
+    sp = names(24, "num")
+    sides = [([[sp[2 * i], 1]], [[sp[2 * i + 1], 1]]) for i in range(12)]
+    out.append(dict(kind=kind, name="large/12-classes", rxns=[["r_%d" % (k + 1), "r", l, r] for k, (l, r) in enumerate(sides)],
+                    iso=[], view="bip_int", delta=0, wr=False))
+    sides = []
+    for i in range(11):
+        sides += [([[sp[2 * i], 1]], [[sp[2 * i + 1], 2]]), ([[sp[2 * i + 1], 2]], [[sp[2 * i], 1]])]
+    out.append(dict(kind=kind, name="large/11-reversible-classes", rxns=[["r_%d" % (k + 1), "r", l, r] for k, (l, r) in enumerate(sides)],
+                    iso=[], view="hyper", delta=0, wr=True))
     return out
